@@ -114,7 +114,7 @@ let scale : z ref = ref (z_of_int 1)
 let pint : g list ref = ref []
 let cg : g ref = ref (z_of_int 1, Z0)
 let ca : g ref = ref (z_of_int 1, Z0)
-let facs : (int * g list * disc list) list ref = ref []     (* discs in reverse order *)
+let facs : (int * z * g list * disc list) list ref = ref []     (* discs in reverse order *)
 let queries : rdisc list ref = ref []                        (* reverse order *)
 let checked : cert option ref = ref None
 
@@ -124,8 +124,8 @@ let reset () =
 
 let build_cert () : cert =
   { c_scale = !scale; c_pint = !pint; c_g = !cg; c_a = !ca;
-    c_factors = List.map (fun (m, q, ds) ->
-      { f_m = nat_of_int m; f_q = q; f_discs = List.rev ds }) !facs }
+    c_factors = List.map (fun (m, k, q, ds) ->
+      { f_m = nat_of_int m; f_prec = k; f_q = q; f_discs = List.rev ds }) !facs }
 
 let tokens (l : string) : string list =
   List.filter (fun s -> s <> "") (String.split_on_char ' ' (String.trim l))
@@ -147,7 +147,7 @@ let read_gs (n : int) : g list =
 
 let add_tiny (k : int) (d : disc) =
   if k < 0 || k >= List.length !facs then failwith "tiny: no such factor";
-  facs := List.mapi (fun i (m, q, ds) -> if i = k then (m, q, d :: ds) else (m, q, ds)) !facs;
+  facs := List.mapi (fun i (m, p, q, ds) -> if i = k then (m, p, q, d :: ds) else (m, p, q, ds)) !facs;
   checked := None
 
 (* explanation of a failure, computed with the extracted sub-checks *)
@@ -162,7 +162,7 @@ let fail_reason (p : rcoef list) (ct : cert) : string =
           r := Printf.sprintf "factor %d shape (m = 0, zero leading coefficient, #discs <> degree, or bad disc)" k
         else
           List.iteri (fun j t ->
-            if !r = "" && not (newton_ok f.f_q t) then
+            if !r = "" && not (newton_test f.f_prec f.f_q t) then
               r := Printf.sprintf "factor %d disc %d newton test" k j) f.f_discs
       end) ct.c_factors;
     if !r <> "" then !r
@@ -184,6 +184,11 @@ let with_cert (f : cert -> unit) =
   | Some ct -> f ct
   | None -> print_endline "ERR not-checked"
 
+let print_rcoefs (l : rcoef list) =
+  Printf.printf "POLY %d\n" (List.length l - 1);
+  List.iter (fun c -> Printf.printf "%s %s %s %s\n" (string_of_z c.re_n) (string_of_z c.re_d)
+                        (string_of_z c.im_n) (string_of_z c.im_d)) l
+
 let side_char = function Gt -> "+" | Lt -> "-" | Eq -> "0"
 
 let handle (toks : string list) : unit =
@@ -203,7 +208,10 @@ let handle (toks : string list) : unit =
       checked := None
   | ["factor"; m; d] ->
       let q = read_gs (int_of_string d + 1) in
-      facs := !facs @ [(int_of_string m, q, [])]; checked := None
+      facs := !facs @ [(int_of_string m, Z0, q, [])]; checked := None
+  | ["factor"; m; d; k] ->
+      let q = read_gs (int_of_string d + 1) in
+      facs := !facs @ [(int_of_string m, z_of_string k, q, [])]; checked := None
   | ["tiny"; k; a; b; r; e] ->
       add_tiny (int_of_string k)
         (disc_of_dyadic (z_of_string a) (z_of_string b) (z_of_string r) (z_of_string e))
@@ -230,6 +238,8 @@ let handle (toks : string list) : unit =
           | [] -> "-"
           | _ -> String.concat "," (List.map (fun i -> string_of_int (int_of_nat i)) l) in
         print_endline ("COVER " ^ String.concat " " (List.map show res));
+        print_endline ("UNCOVERED " ^ String.concat " "
+          (List.map (fun b -> if b then "1" else "0") (uncovered ct (List.rev !queries))));
         print_endline (if all_covered ct (List.rev !queries) then "ALLCOVERED yes" else "ALLCOVERED no"))
   | ["side"; kind] ->
       with_cert (fun ct ->
@@ -246,6 +256,21 @@ let handle (toks : string list) : unit =
         List.iter (fun (m, t) ->
           Printf.printf "%d %s %s %s %s\n" (int_of_nat m) (string_of_z (fst t.dc))
             (string_of_z (snd t.dc)) (string_of_z t.dr) (string_of_z t.ds)) l)
+  | ["secular"; n] ->
+      (* n lines: a_re_num a_re_den a_im_num a_im_den b_re_num b_re_den b_im_num b_im_den *)
+      let n = int_of_string n in
+      let ab = List.init n (fun _ ->
+        match read_tokens () with
+        | [a1; a2; a3; a4; b1; b2; b3; b4] ->
+            ({ re_n = z_of_string a1; re_d = z_of_string a2; im_n = z_of_string a3; im_d = z_of_string a4 },
+             { re_n = z_of_string b1; re_d = z_of_string b2; im_n = z_of_string b3; im_d = z_of_string b4 })
+        | _ -> failwith "expected 8 integers") in
+      if not (secular_wf ab) then print_endline "ERR zero denominator"
+      else print_rcoefs (secular_to_monomial ab)
+  | ["cheb"; n] ->
+      let cs = read_rcoefs (int_of_string n + 1) in
+      if not (all_rcoef_wf cs) then print_endline "ERR zero denominator"
+      else print_rcoefs (chebyshev_to_monomial cs)
   | ["quit"] -> exit 0
   | cmd :: _ -> failwith ("unknown command: " ^ cmd)
 
